@@ -115,6 +115,15 @@ cfg_not_miri! {
                     }
                 }
 
+                /// The timestamp of the event that `fetch_next` will return.
+                /// Does not change the event set.
+                pub(crate) fn peek_time(&self) -> Option<SimTime> {
+                    self.zero_queue
+                        .front()
+                        .or_else(|| self.heap.peek())
+                        .map(|node| node.time)
+                }
+
                 //
                 // clippy::let_and_return occures on not(feature = "metrics")
                 // but would produce invalid code with feature "metrics"
@@ -208,6 +217,12 @@ cfg_not_miri! {
                             *options.start_time,
                         ),
                     }
+                }
+
+                /// The timestamp of the event that `fetch_next` will return.
+                /// Does not change the event set.
+                pub(crate) fn peek_time(&self) -> Option<SimTime> {
+                    self.inner.peek_time().map(SimTime::from_duration)
                 }
 
                 #[allow(clippy::needless_pass_by_value)]
@@ -348,6 +363,15 @@ cfg_miri! {
 
                     last_event_simtime: options.start_time,
                 }
+            }
+
+            /// The timestamp of the event that `fetch_next` will return.
+            /// Does not change the event set.
+            pub(crate) fn peek_time(&self) -> Option<SimTime> {
+                self.zero_queue
+                    .front()
+                    .or_else(|| self.heap.peek())
+                    .map(|node| node.time)
             }
 
             //
